@@ -58,6 +58,9 @@ class Lithium:
 
         self.temp_file_count = 1
 
+        # whether the testcase file has been (over)written by a candidate
+        self.testcase_written = False
+
     def main(self, argv: Optional[List[str]] = None) -> int:
         """Main entrypoint (parse args and call `run()`)
 
@@ -109,7 +112,8 @@ class Lithium:
                 cast(Any, self.condition_script).cleanup(self.condition_args)
 
             # Make sure we exit with an interesting testcase
-            if self.last_interesting is not None:
+            # (nothing to restore if no candidate was ever written, eg. check-only)
+            if self.last_interesting is not None and self.testcase_written:
                 self.last_interesting.dump()
 
     def process_args(self, argv: Optional[List[str]] = None) -> None:
@@ -304,6 +308,7 @@ class Lithium:
             Whether or not the testcase was interesting.
         """
         if write_it:
+            self.testcase_written = True
             testcase_suggestion.dump()
 
         self.test_count += 1
